@@ -24,8 +24,8 @@ TIERS = {
     "thorough": dict(timeout_ms=120000, path_bound=32, cvc5=True, ob_wall=1500),
 }
 
-REPLAY_RTOL = 2e-3
-REPLAY_ATOL = 2e-3
+REPLAY_RTOL = 2e-4
+REPLAY_ATOL = 2e-5
 NICE_MARGIN = Fraction(1, 50)
 
 
@@ -92,7 +92,7 @@ class Ctx:
             for i, n in enumerate(names):
                 if n in self.model and self.model[n] is not None:
                     flat[i] = float(self.model[n])
-            r = flat.reshape(t.shape).to(dtype if dtype == torch.float64 else dtype)
+            r = flat.reshape(t.shape).to(torch.float64 if dtype == torch.float32 else dtype)  # replay in double precision
             if requires_grad:
                 r.requires_grad_(True)
             return r
@@ -428,7 +428,7 @@ class Ctx:
             diff = tm.ratfun_cross(l, r)
             if not tm.denominators([l, r]):
                 goal = tm.or_(tm.lt(tm.const(NICE_MARGIN), diff), tm.lt(diff, tm.const(-NICE_MARGIN)))
-                st, m, _ = self.solver.check(list(pre) + self.nice + [goal], timeout_ms=5000, kind="nice")
+                st, m, _ = self.solver.check(list(pre) + self.nice + [goal], timeout_ms=10000, kind="nice")
                 if st == "sat":
                     return self._complete(m)
             st, m, _ = self.solver.check(list(pre) + self.nice + [tm.not_(tm.eq(diff, tm.ZERO))], timeout_ms=5000, kind="nice")
